@@ -427,3 +427,22 @@ theorem L3b_count_pos (B : ℕ → Prop) [DecidablePred B] (n i : ℕ) (hi : i <
   exact ⟨i, by simp [Finset.mem_filter, hi, hb]⟩
 
 end PyvcLemmas
+
+namespace PyvcLemmas
+
+/-- prefix counts are monotone ... -/
+theorem L3_count_prefix_mono (B : ℕ → Prop) [DecidablePred B] (s i : ℕ) (h : s ≤ i) : CNT B s ≤ CNT B i := by
+  unfold CNT
+  apply Finset.card_le_card
+  apply Finset.filter_subset_filter
+  exact Finset.range_mono h
+
+/-- ... and strictly so across an index that is counted (position of the entries of a list built by conditional appends:
+the entry of the s-th element, if it was appended, sits at index `CNT B s`, below the current length `CNT B i`) -/
+theorem L3_count_prefix_lt (B : ℕ → Prop) [DecidablePred B] (s i : ℕ) (h : s < i) (hb : B s) : CNT B s < CNT B i := by
+  have h1 := L3_count_prefix_mono B (s + 1) i (Nat.succ_le_of_lt h)
+  rw [L0_count_unfold] at h1
+  simp [hb] at h1
+  omega
+
+end PyvcLemmas
